@@ -65,6 +65,8 @@ def make_program_class():
             k = self.kind(s)
             Op = T["Op"]
             again = sorted((key for key in self.used.get(k, {}) if k != "C" or key[2] == s.dimensions), key=repr)
+            if k == "F" and self.heavy(s):
+                again = [key for key in again if key[1] not in ("cre", "disp", "sq", "expr")]
             if again and r.random() < 0.5:          # an operation that was applied before, possibly to another subsystem
                 key = r.choice(again)
                 return self.mk(key, self.used[k][key])
@@ -83,6 +85,8 @@ def make_program_class():
                 return self.mk(("P", "Custom", tag), lambda: Op(T["P"].Custom, operator=jnp.array(_fixed_unitary(2, tag))))
             if k == "F":
                 c = r.choice(["cre", "cre", "ann", "ps", "disp", "disp", "disp", "sq", "expr"])
+                if self.heavy(s) and c in ("cre", "disp", "sq", "expr"):
+                    c = r.choice(["ann", "ps"])
                 if c == "cre":
                     return self.mk(("F", "cre"), lambda: Op(T["F"].Creation))
                 if c == "ann":
@@ -141,6 +145,8 @@ def make_program_class():
             c = r.choice(["bs", "bs", "cx", "cz", "swap", "cswap", "kron", "fexpr"])
             if c == "bs":
                 t = self.same_composite(live, "F", 2)
+                if t and (max(int(t[0].dimensions), 1) * max(int(t[1].dimensions), 1) > 400 or any(self.heavy(x) for x in t)):
+                    return
                 eta = r.choice([0.3, math.pi / 4, 1.0])
                 op = self.mk(("C", "bs", eta), lambda: Op(T["C"].NonPolarizingBeamSplitter, eta=eta))
             elif c in ("cx", "cz", "swap"):
@@ -153,7 +159,7 @@ def make_program_class():
             elif c == "fexpr":
                 # an expression over two Fock spaces: its matrix depends on both cutoffs
                 t = self.same_composite(live, "F", 2)
-                if not t:
+                if not t or max(int(t[0].dimensions), 1) * max(int(t[1].dimensions), 1) > 400 or any(self.heavy(x) for x in t):
                     return
                 from photon_weave.state.fock import Fock
                 th = r.choice([0.5, -0.8])
